@@ -746,7 +746,11 @@ TOP:
 				}
 			}
 		case method != nil:
-			args := root.formReflectArgs(ov, vars, field)
+			args, ea2 := root.formReflectArgs(ov, vars, field, fd)
+			if 0 < len(ea2) {
+				ea = append(ea, ea2...)
+				return
+			}
 			if err = checkReflectArgs(method, args); err != nil {
 				ea = append(ea, resWarn(field.line, field.col, "%T.%s %s", obj, field.Name, err))
 				return
@@ -768,27 +772,52 @@ TOP:
 	return
 }
 
-func (root *Root) formReflectArgs(ov reflect.Value, vars map[string]interface{}, field *Field) (args []reflect.Value) {
+func (root *Root) formReflectArgs(
+	ov reflect.Value,
+	vars map[string]interface{},
+	field *Field,
+	fd *FieldDef) (args []reflect.Value, ea []error) {
+
 	args = make([]reflect.Value, 0, len(field.Args)+1)
 	args = append(args, ov)
 	// Build the args by combining provided args and variable values as
-	// appropriate.
+	// appropriate, coerced to the declared argument types as they are for
+	// the other resolver strategies.
 	for _, av := range field.Args {
-		switch {
-		case av == nil:
+		if av == nil {
 			// A declared argument that was not given.
 			args = append(args, reflect.Value{})
-		case vars != nil:
-			if vr, ok := av.Value.(Var); ok {
-				args = append(args, reflect.ValueOf(vars[string(vr)]))
-			} else {
-				args = append(args, reflect.ValueOf(av.Value))
-			}
-		default:
-			args = append(args, reflect.ValueOf(av.Value))
+			continue
 		}
+		var at Type
+		if a := fd.getArg(av.Arg); a != nil {
+			at = a.Type
+		}
+		val, ea2 := root.replaceArgVars(vars, av.Value, at)
+		Errors(ea2).in(av.Arg)
+		ea = append(ea, ea2...)
+		args = append(args, reflect.ValueOf(val))
 	}
 	return
+}
+
+// widens reports whether a value of type from can be converted to type to
+// without changing it: a signed integer to a signed integer that is at least
+// as wide or a float to a float that is at least as wide.
+func widens(from, to reflect.Type) bool {
+	switch from.Kind() {
+	case reflect.Int, reflect.Int8, reflect.Int16, reflect.Int32, reflect.Int64:
+		switch to.Kind() {
+		case reflect.Int, reflect.Int8, reflect.Int16, reflect.Int32, reflect.Int64:
+			return from.Bits() <= to.Bits()
+		}
+	case reflect.Float32, reflect.Float64:
+		switch to.Kind() {
+		case reflect.Float32, reflect.Float64:
+			return from.Bits() <= to.Bits()
+		}
+	}
+	return false
 }
 
 // checkReflectArgs makes sure a method can be called with the arguments
@@ -806,6 +835,12 @@ func checkReflectArgs(method *reflect.Value, args []reflect.Value) error {
 			return fmt.Errorf("argument %d is missing or null", i)
 		}
 		if !a.Type().AssignableTo(mt.In(i)) {
+			// An Int is handed on as an int32 and a Float as a float32, a
+			// method is free to take an int, int64 or a float64 instead.
+			if widens(a.Type(), mt.In(i)) {
+				args[i] = a.Convert(mt.In(i))
+				continue
+			}
 			return fmt.Errorf("argument %d, a %s can not be used as a %s", i, a.Type(), mt.In(i))
 		}
 	}
